@@ -25,6 +25,8 @@ pub enum Op {
     ReadAll(String),
     ReadToString(String),
     Walk(String),
+    /// set_creation_time / set_modification_time / set_access_time (field 0 / 1 / 2) to a fixed value
+    SetTime(String, u8),
 }
 
 /// Observable value returned by a successful call (everything a caller can see).
@@ -93,7 +95,13 @@ impl Op {
             Op::ReadAll(_) => "open_file+read",
             Op::ReadToString(_) => "read_to_string",
             Op::Walk(_) => "walk_dir",
+            Op::SetTime(_, 0) => "set_creation_time",
+            Op::SetTime(_, 1) => "set_modification_time",
+            Op::SetTime(..) => "set_access_time",
         }
+    }
+    pub fn is_setter(&self) -> bool {
+        matches!(self, Op::SetTime(..))
     }
     pub fn is_observer(&self) -> bool {
         matches!(
@@ -134,6 +142,7 @@ impl Op {
             | Op::ReadDir(p)
             | Op::ReadAll(p)
             | Op::ReadToString(p)
+            | Op::SetTime(p, _)
             | Op::Walk(p) => p,
         }
     }
@@ -165,6 +174,7 @@ impl Op {
             Op::ReadAll(p) => Op::ReadAll(f(p)),
             Op::ReadToString(p) => Op::ReadToString(f(p)),
             Op::Walk(p) => Op::Walk(f(p)),
+            Op::SetTime(p, k) => Op::SetTime(f(p), *k),
         }
     }
     pub fn show(&self) -> String {
@@ -218,6 +228,9 @@ impl Op {
             "open_file+read" => Op::ReadAll(p),
             "read_to_string" => Op::ReadToString(p),
             "walk_dir" => Op::Walk(p),
+            "set_creation_time" => Op::SetTime(p, 0),
+            "set_modification_time" => Op::SetTime(p, 1),
+            "set_access_time" => Op::SetTime(p, 2),
             _ => return None,
         })
     }
@@ -270,6 +283,15 @@ fn apply_inner<P: PathApi>(root: &P, op: &Op) -> R<Val> {
                 .map(|i| i.map(|c| c.as_string()))
                 .collect(),
         ),
+        Op::SetTime(_, k) => {
+            let t = std::time::SystemTime::UNIX_EPOCH + std::time::Duration::from_secs(1_234_567);
+            let f = match k {
+                0 => TimeField::Created,
+                1 => TimeField::Modified,
+                _ => TimeField::Accessed,
+            };
+            p.set_time(f, t).map(|_| Val::Unit)?
+        }
     })
 }
 
@@ -359,6 +381,7 @@ pub struct Alphabet {
     pub append_cap: usize,
     pub composites: bool,
     pub observers: bool,
+    pub setters: bool,
 }
 
 impl Alphabet {
@@ -387,6 +410,13 @@ impl Alphabet {
                     v.push(Op::MoveFile(p.clone(), q.clone()));
                     v.push(Op::CopyDir(p.clone(), q.clone()));
                     v.push(Op::MoveDir(p.clone(), q.clone()));
+                }
+            }
+        }
+        if self.setters {
+            for p in &ps {
+                for k in 0..3 {
+                    v.push(Op::SetTime(p.clone(), k));
                 }
             }
         }
